@@ -603,7 +603,14 @@ func invertConst(q Q) Q {
 func evalAndOrConstants(q Q, children []Q) Q {
 	_, isAnd := q.(*And)
 
-	children = mapQueryList(children, evalConstants)
+	// evalConstants recurses by itself. Running it through Map (which also
+	// visits every node of the subtree) repeats that work at every level and
+	// is exponential in the nesting depth.
+	evaluated := make([]Q, len(children))
+	for i, ch := range children {
+		evaluated[i] = evalConstants(ch)
+	}
+	children = evaluated
 
 	newCH := children[:0]
 	for _, ch := range children {
